@@ -395,8 +395,8 @@ TRUSTED_COMMON = [
 # the codec stream: structured cases through harness and model
 
 def codec_line(c, val=None):
-    if c["cmd"] == "dec":
-        return f"dec {c['ty']} {c['hex']}"
+    if c["cmd"] in ("dec", "decq"):
+        return f"{c['cmd']} {c['ty']} {c['hex']}"
     v = val if val is not None else c["val"]
     if c["cmd"] in ("enc", "encu", "encit"):
         return f"{c['cmd']} {c['ty']} {v}"
